@@ -90,12 +90,19 @@ def run_timers(prop, tier, seed, cap=None, kcap=None):
                                   "replay": _save("%s-timers-sim" % prop, text), "sig": "tlc"})
         return out
     behs = coreexport.parse_cases(text, "TCASE")
-    cap = cap or (2500 if tier == "quick" else 40000)
+    cap = cap or (1200 if tier == "quick" else 40000)
     if len(behs) > cap:
         random.Random(seed).shuffle(behs)
         behs = behs[:cap]
     # key-reuse focused configurations: exhaustive, every final state exported
-    for kc in ("MCTimers_keysf.cfg", "MCTimers_keysv.cfg", "MCTimers_long.cfg", "MCTimers_near.cfg", "MCTimers_sub.cfg", "MCTimers_long2.cfg", "MCTimers_r75.cfg", "MCTimers_past.cfg"):
+    focus = {
+        "C07": ("long", "sub", "keysv", "long2"),
+        "C08": ("long", "long2", "keysv", "sub"),
+        "C09": ("r75", "long", "sub", "keysv"),
+        "C10": ("keysf", "keysv", "long"),
+        "C19": ("near", "past", "keysf"),
+    }.get(prop, ("keysf", "keysv", "long", "near", "sub", "long2", "r75", "past"))
+    for kc in ["MCTimers_%s.cfg" % f for f in focus]:
         st, tr, bad, text = _tlc_mc("MCTimers.tla", kc, "tmk-%s" % prop)
         out["states"] += st
         out["transitions"] += tr
@@ -105,7 +112,7 @@ def run_timers(prop, tier, seed, cap=None, kcap=None):
                                       "replay": _save("%s-timers-%s" % (prop, kc), text), "sig": "tlc"})
             return out
         kb = coreexport.parse_cases(text, "TCASE")
-        kc_ = kcap or (1200 if tier == "quick" else 100000)
+        kc_ = kcap or (6000 if tier == "quick" else 100000)
         if len(kb) > kc_:
             random.Random(seed + 1).shuffle(kb)
             kb = kb[:kc_]
